@@ -145,6 +145,11 @@ def melody_case(draw, max_n=10, allow_params=True):
             kw["est_voicing"] = [draw(st.sampled_from([0.0, 0.5, 1.0, 1.0])) for _ in range(m)]
         if draw(st.integers(0, 3)) == 0:
             kw["ref_reward"] = [draw(st.sampled_from([0.0, 0.5, 1.0, 1.0])) for _ in range(n)]
+        if draw(st.integers(0, 7)) == 0:
+            # both confidences, heterogeneous and correlated: the estimator is unsure exactly where the annotator was
+            rew = [draw(st.sampled_from([1.0, 1.0, 0.125, 0.0625, 0.5])) for _ in range(n)]
+            kw["ref_reward"] = rew
+            kw["est_voicing"] = [rew[k] if k < n else 1.0 for k in range(m)]
         if draw(st.integers(0, 3)) == 0:
             kw["hop"] = draw(st.sampled_from([0.125, 0.25, 0.375]))
         if draw(st.integers(0, 2)) == 0:
